@@ -610,6 +610,57 @@ func permuteBlocks(r *RNG, ls []string) []string {
 	return out
 }
 
+// splitJoined: the printed lines; a joined line stays one element.
+func splitJoined(out string) []string {
+	var l []string
+	for _, line := range strings.Split(strings.TrimSuffix(out, "\n"), "\n") {
+		if line != "" {
+			l = append(l, line)
+		}
+	}
+	return l
+}
+
+func routeDest(r string) string {
+	f := strings.Fields(r)
+	if len(f) >= 5 && f[0] == "vrf" {
+		return f[1] + " " + f[2] + " " + f[3]
+	}
+	if len(f) >= 3 {
+		return " " + f[0] + " " + f[1]
+	}
+	return r
+}
+
+// routeShapeGo checks the shape of NA.Route.routes_covered on the real route command lines: first additions and
+// joined replacements to the same (VRF, destination), then removals of lines that are not target routes.
+func routeShapeGo(lines []string, target []string) string {
+	inB := false
+	for _, l := range lines {
+		switch {
+		case strings.HasPrefix(l, "no ip route ") && strings.Contains(l, "\\N ip route "):
+			h := strings.SplitN(l, "\\N ", 2)
+			o, n := strings.TrimPrefix(h[0], "no ip route "), strings.TrimPrefix(h[1], "ip route ")
+			if inB {
+				return "replacement after a removal: " + l
+			}
+			if routeDest(o) != routeDest(n) {
+				return "replacement changes the destination: " + l
+			}
+		case strings.HasPrefix(l, "ip route "):
+			if inB {
+				return "addition after a removal: " + l
+			}
+		case strings.HasPrefix(l, "no ip route "):
+			inB = true
+			if contains(target, strings.TrimPrefix(l, "no ip route ")) {
+				return "removal of a target route: " + l
+			}
+		}
+	}
+	return ""
+}
+
 func genCase(r *RNG) cfgCase {
 	b := genTarget(r)
 	a, note := genDevice(r, b)
@@ -810,6 +861,20 @@ func run(ctx *Ctx) *Result {
 		}
 		if f["settled"] == "1" && !empty {
 			res.Disagree(stream+": settledB holds but drc prints changes (contradicts ios_F2_quiet)", c, out, "settled=1")
+		}
+		// ios_route_plan_phases: the route commands of the (identical) script have the shape of NA.Route.routes_covered
+		if f["routecmds"] != "0" && f["routecmds"] != "" {
+			res.Count(fmt.Sprintf("%s:route-commands:phaseA/phaseB(driver)=%s,keys=%s", stream, f["routeshape"], f["routekeys"]))
+			if f["wf"] == "1" && f["routekeys"] == "1" && f["routeshape"] != "1" {
+				res.Disagree(stream+": wfB holds but the route commands are not `adds/replacements, then removals of non-target routes` (contradicts ios_route_plan_phases)", c, out, "routeshape=0")
+			}
+			if why := routeShapeGo(splitJoined(out), b.Routes); why != "" {
+				if f["wf"] == "1" {
+					res.Disagree(stream+": wfB holds but the REAL route commands violate the shape: "+why+" (contradicts ios_route_plan_phases)", c, out, why)
+				} else {
+					res.Count(stream + ":route-shape-violated-outside-wfB")
+				}
+			}
 		}
 		if f["wf"] == "1" && !strings.HasPrefix(f["exec"], "ok") {
 			// the theorem says: accepted; cross-check its conclusion on this very case
@@ -1028,6 +1093,9 @@ func run(ctx *Ctx) *Result {
 				now := dsts(st)
 				for d := range before {
 					if after[d] && !now[d] {
+						if f["wf"] == "1" {
+							res.Disagree("F2: wfB holds but a destination is uncovered after a command (contradicts ios_routes_covered_every_step)", c, d, fmt.Sprint(k))
+						}
 						res.Fail(sig("route_destination_uncovered_during_change"), fmt.Sprintf("after command %d destination %s has no route although it has one before and after", k, d), c)
 					}
 				}
@@ -1047,7 +1115,20 @@ func run(ctx *Ctx) *Result {
 				if v2 == "panic" {
 					continue
 				}
+				// ios_F2_resume_partial: hypothesis = the cut state is in the class wfB again (evaluated by the driver)
+				wfCut := f2 != nil && f2["wf"] == "1"
+				if f["wf"] == "1" {
+					if f2 != nil && f2["rej"] == "0" {
+						res.Count("resume-cut-after-wfB-start:wfB(cut)=" + f2["wf"] + ":" + f2["wfwhy"])
+					} else {
+						res.Count("resume-cut-after-wfB-start:refused")
+					}
+				}
+				resumeTheorem := f["wf"] == "1" && wfCut
 				if v2 == "refused" {
+					if f["wf"] == "1" {
+						res.Disagree("F2: wfB start, but drc refuses the cut state (contradicts ios_F2_resume_partial: checkIOSInterfaces succeeds again)", c, fmt.Sprint(k+1), "")
+					}
 					res.Fail(sig("resume_state_not_accepted"), fmt.Sprintf("cut after %d commands: drc rejects the intermediate device", k+1), c)
 					continue
 				}
@@ -1055,6 +1136,9 @@ func run(ctx *Ctx) *Result {
 				bad := false
 				for i, cmd := range cmds2 {
 					if err := ex2.exec1(cmd); err != nil {
+						if resumeTheorem {
+							res.Disagree("F2: wfB at start and at the cut, but a command of the second script is rejected (contradicts ios_F2_resume_partial)", c, cmd, err.Error())
+						}
 						s := sig("resume_command_rejected")
 						s["reason"] = rejectClass(err.Error())
 						res.Fail(s, fmt.Sprintf("cut after %d commands: second script command %d %q: %v", k+1, i, cmd, err), c)
@@ -1066,6 +1150,9 @@ func run(ctx *Ctx) *Result {
 					continue
 				}
 				if got := ex2.d.managedView(intfs, rvrfs, withRoutes); got != wantView {
+					if resumeTheorem {
+						res.Disagree("F2: wfB at start and at the cut, but the second run does not reach the target (contradicts ios_F2_resume_partial)", c, got, wantView)
+					}
 					s := sig("resume_not_converged")
 					s["suppressed_move_at_remark"] = remarkSuppr || remarkHit(f2)
 					res.Fail(s, fmt.Sprintf("cut after %d commands: second run ends in\n%s-- want\n%s", k+1, got, wantView), c)
